@@ -32,7 +32,7 @@ def sx(e):
 
 # names that differ from run to run: z3 fresh ints, uuid ints, uuid hex, 8-hex suffixes, and the
 # %<kind><n>% tokens of the Lean printer
-UNSTABLE = re.compile(r"(%[a-z][0-9]+%|x![0-9]+|[0-9]{25,}|[0-9a-f]{32}|(?<=_)[0-9a-f]{8}\b)")
+UNSTABLE = re.compile(r"(%[^%\s()]+%|x![0-9]+|[0-9]{25,}|[0-9a-f]{32}|(?<=_)[0-9a-f]{8}\b)")
 
 
 def canon(lines):
